@@ -838,6 +838,16 @@ func (a *ranger) condFacts(c ssa.Value, pol bool, at *ssa.BasicBlock) []cons {
 			return []cons{le(r, l)}
 		case token.EQL:
 			return []cons{le(l, r), le(r, l)}
+		case token.NEQ:
+			// unsigned x != 0  =>  x >= 1
+			if isUnsigned(x.X.Type()) {
+				if r.isConst() && r.k.Sign() == 0 {
+					return []cons{le(konst64(1), l)}
+				}
+				if l.isConst() && l.k.Sign() == 0 {
+					return []cons{le(konst64(1), r)}
+				}
+			}
 		}
 	}
 	return nil
@@ -1008,7 +1018,7 @@ var assumedPre = map[string]fnPre{}
 
 func init() {
 	assumedPre["(*P0.Memory).Copy"] = fnPre{
-		why: "the interpreter resizes memory to memoryMcopy(stack) = max(dst, src) + len (overflow-checked, C15 R15.3) before opMcopy — the only caller — executes (Run is a clone of the reference loop)",
+		why: "for len >= 1 the interpreter resizes memory to memoryMcopy(stack) = max(dst, src) + len (overflow-checked, C15 R15.3) before opMcopy — the only caller — executes (Run is a clone of the reference loop)",
 		add: func(a *ranger) {
 			fn := a.fn
 			if len(fn.Params) != 4 {
@@ -1027,7 +1037,14 @@ func init() {
 					}
 					L := a.lenOf(u, entry)
 					dst, src, ln := a.lin(fn.Params[1], entry), a.lin(fn.Params[2], entry), a.lin(fn.Params[3], entry)
-					a.intr = append(a.intr, le(dst.plus(ln), L), le(src.plus(ln), L))
+					// the contract only holds for a non-empty copy: memoryMcopy reports size 0 for len = 0 and the
+					// interpreter then does not resize at all, whatever dst and src are. So the two facts are
+					// available only where the guards already entail len >= 1.
+					for _, bb := range fn.Blocks {
+						if a.proves(bb, le(konst64(1), ln)) {
+							a.facts[bb] = append(a.facts[bb], le(dst.plus(ln), L), le(src.plus(ln), L))
+						}
+					}
 				}
 			}
 		},
